@@ -92,7 +92,7 @@ func (lf *LabelFormat) Process(ts otelstorage.Timestamp, line string, set LabelS
 	for _, p := range lf.formats {
 		lf.buf.Reset()
 
-		if err := p.Template.Execute(lf.buf, m); err != nil {
+		if err := executeTemplate(p.Template, lf.buf, m); err != nil {
 			set.SetError("template error", err)
 			continue
 		}
